@@ -127,5 +127,5 @@ func runC12(c *Ctx) {
 	// "a refused operation yields an error and no state", and a patch list that fails leaves the previous document in
 	// the degraded state: at the level of the applier these are the return-shape and field-provenance rules of the state
 	// fold (C01.R1 / C01.P1: the document of an accepted model is the previous one, a fresh one, or the composer's result)
-	runC01(c)
+	c.apart(runC01)
 }
